@@ -59,7 +59,8 @@ def run(names_path):
     print("(b) corrupted traces must be rejected")
     tag = "selftest"
     # serializer trace: one pad/raw byte changed, one alignment unit changed, one row offset changed
-    raw = harness(["record", "7", "40", "20"]).splitlines()
+    from .roundtrip import prep_trace, ALLK
+    raw = prep_trace(harness(["record", "7", "40", "20"]).splitlines(), ALLK)
     def corrupt(lines, pred, mut):
         out, done = [], False
         for ln in lines:
@@ -79,7 +80,7 @@ def run(names_path):
     consts = {"UsizeBytes": 8, "ZstUnit": 1, "VLevel": 1, "TupleRangeConstTrue": False, "BugSliceFree": False,
               "SinkGrain": "call", "SinkFaulty": False, "MaxFaults": 0}
     cfg = os.path.join(WORK, tag, "tser.cfg")
-    write_cfg(cfg, consts, init="TInit", next_="TNext", invariants=["TPosCounts", "TBlockAligned"], extra="POSTCONDITION Accepted")
+    write_cfg(cfg, consts, init="TInit", next_="TNext", invariants=["Furthest", "TPosCounts", "TBlockAligned"], extra="POSTCONDITION Accepted")
     def validate(lines, module, cfgpath):
         p = os.path.join(WORK, tag, "t.ndjson")
         open(p, "w").write("\n".join(lines) + "\n")
